@@ -39,3 +39,10 @@ Proof.
   intros ctx a v tv e Hs H. destruct (checker1_denotation ctx a v tv Hs) as [b E]. rewrite E in H.
   destruct b; simpl in H; [discriminate|now inversion H].
 Qed.
+
+Lemma checker1_sound : forall ctx a v tv tv', supported ctx a = true ->
+  checker1 ctx a v tv = (Ok tt, tv') -> conforms ctx a v <> MustNot.
+Proof.
+  intros ctx a v tv tv' Hs H. apply (sound gcfg checker_good ctx (is_inst0 gcfg ctx) a v tv Hs).
+  unfold checker1, assert_matches1 in H. change Gen.CheckerTables.checker_cfg with gcfg in H. now rewrite H.
+Qed.
